@@ -53,6 +53,14 @@ var trList = []trFunc{
 	{"CodeKeepSafe", "destination", "keepSafe.Add", "keepSafe.Add", true, false, []string{"recv"}, nil},
 	{"CodeKeepSafe", "destination", "keepSafe.GetAll", "keepSafe.GetAll", true, false, []string{"recv"}, nil},
 	{"CodeRewriter", "rewriter", "RW.Do", "RW.Do", true, false, nil, nil},
+	{"CodeTableOps", "table", "Table.AddRoute", "Table.AddRoute", true, false, []string{"recv"}, nil},
+	{"CodeTableOps", "table", "Table.AddBlacklist", "Table.AddBlacklist", true, false, []string{"recv"}, nil},
+	{"CodeTableOps", "table", "Table.AddAggregator", "Table.AddAggregator", true, false, []string{"recv"}, nil},
+	{"CodeTableOps", "table", "Table.AddRewriter", "Table.AddRewriter", true, false, []string{"recv"}, nil},
+	{"CodeTableOps", "table", "Table.DelBlacklist", "Table.DelBlacklist", true, false, []string{"recv"}, nil},
+	{"CodeTableOps", "table", "Table.DelRewriter", "Table.DelRewriter", true, false, []string{"recv"}, nil},
+	{"CodeTableOps", "table", "Table.DelAggregator", "Table.DelAggregator", false, false, []string{"recv"}, nil},
+	{"CodeTableOps", "table", "Table.DelRoute", "Table.DelRoute", false, false, []string{"recv"}, nil},
 }
 
 // generated modules that import another generated module (a translated function calling a translated method)
@@ -63,11 +71,12 @@ var leanTypes = map[string]string{
 	"uint16": "Int", "uint": "Int", "float64": "F64", "error": "Err",
 	"*Matcher": "Matcher", "Matcher": "Matcher", "*Table": "Table", "*SendAllMatch": "SendAllMatch", "*SendFirstMatch": "SendFirstMatch",
 	"*ConsistentHasher": "ConsistentHasher", "*Aggregator": "Aggregator", "*keepSafe": "keepSafe", "RW": "RW",
+	"route.Route": "RouteI", "*matcher.Matcher": "MatcherI", "*aggregator.Aggregator": "AggregatorI", "rewriter.RW": "RewriterI",
 }
 
 // calls that are dropped (no effect on any modelled observable)
 func ignoredCall(s string) bool {
-	if strings.HasPrefix(s, "log.") {
+	if strings.HasPrefix(s, "log.") || s == "fmt.Println" || s == "fmt.Printf" {
 		return true
 	}
 	for _, suf := range []string{".Lock", ".Unlock", ".RLock", ".RUnlock"} {
@@ -83,7 +92,7 @@ var effectMethods = map[string]bool{"Inc": true, "Add": true}
 
 // methods of another component that have effects of their own: the callee's trace is spliced in (the interface record
 // gives them the type `... -> Res value`)
-var spliceMethods = map[string]bool{"Dispatch": true, "AddMaybe": true}
+var spliceMethods = map[string]bool{"Dispatch": true, "AddMaybe": true, "Shutdown": true}
 
 // methods that change their receiver (a local or threaded variable): `x.M(args)` as a statement is `x := x.M args`
 var mutatorMethods = map[string]bool{"Write": true, "Reset": true}
@@ -281,9 +290,7 @@ func (c *trCtx) expr(e ast.Expr) string {
 		}
 		return "Lib.idx " + par(c.expr(x.X)) + " " + par(c.expr(x.Index))
 	case *ast.SliceExpr:
-		if x.Slice3 {
-			fail("3-index slice")
-		}
+		// a[l:h:m]: the capacity limit does not change the elements
 		b := par(c.expr(x.X))
 		switch {
 		case x.Low == nil && x.High == nil:
@@ -344,6 +351,13 @@ func (c *trCtx) call(x *ast.CallExpr) string {
 	}
 	if fn == "make" && len(x.Args) == 2 && src(x.Args[0]) == "[]byte" {
 		return "Lib.makeBytes " + par(c.expr(x.Args[1]))
+	}
+	if (fn == "fmt.Errorf" || fn == "errors.New") && len(x.Args) >= 1 {
+		// an error value: its format string (arguments are not rendered)
+		if bl, ok := x.Args[0].(*ast.BasicLit); ok && bl.Kind == token.STRING {
+			return "(some " + bl.Value + " : Err)"
+		}
+		fail("error with a non-literal format")
 	}
 	if fn == "make" && (len(x.Args) == 2 || len(x.Args) == 3) && strings.HasPrefix(src(x.Args[0]), "[]") && src(x.Args[1]) == "0" {
 		return "[]"
@@ -566,6 +580,10 @@ func (c *trCtx) stmts(list []ast.Stmt, ind string) string {
 			if id, ok := se.X.(*ast.Ident); ok && c.declared[id.Name] {
 				return c.assignTo(se.X, c.call(call), token.ASSIGN) + nl + c.stmts(rest, ind)
 			}
+		}
+		if se, ok := call.Fun.(*ast.SelectorExpr); ok && se.Sel.Name == "Store" && len(call.Args) == 1 {
+			// atomic.Value.Store on a field of a threaded object
+			return c.assignTo(se.X, c.expr(call.Args[0]), token.ASSIGN) + nl + c.stmts(rest, ind)
 		}
 		if fn == "copy" && len(call.Args) == 2 {
 			return c.assignTo(call.Args[0], "Lib.copy "+par(c.expr(call.Args[0]))+" "+par(c.expr(call.Args[1])), token.ASSIGN) + nl + c.stmts(rest, ind)
@@ -806,11 +824,24 @@ func checkNoShadow(c *trCtx, block, rest []ast.Stmt) {
 
 func (c *trCtx) rangeStmt(x *ast.RangeStmt, rest []ast.Stmt, ind string) string {
 	nl := "\n" + ind
-	if x.Tok != token.DEFINE && x.Key != nil {
-		fail("range with assignment")
-	}
 	as := map[string]bool{}
 	assignedIn(x.Body.List, as)
+	rangeAssign := x.Tok == token.ASSIGN
+	if rangeAssign {
+		// `for i, v = range xs`: the loop variables are outer variables, assigned at the start of every iteration
+		for _, e := range []ast.Expr{x.Key, x.Value} {
+			if e == nil {
+				continue
+			}
+			id, ok := e.(*ast.Ident)
+			if !ok {
+				fail("range assigns to %s", src(e))
+			}
+			if id.Name != "_" {
+				as[id.Name] = true
+			}
+		}
+	}
 	var mv []string
 	for n := range as {
 		if c.declared[n] {
@@ -828,11 +859,27 @@ func (c *trCtx) rangeStmt(x *ast.RangeStmt, rest []ast.Stmt, ind string) string 
 	if x.Value != nil {
 		val = lid(src(x.Value))
 	}
+	keyName := ""
+	if useKey {
+		keyName = lid(src(x.Key))
+	}
+	rebind := ""
+	if rangeAssign {
+		// bind the elements under fresh names, then assign
+		if val != "_" {
+			rebind += "let " + val + " := " + val + "_it\n" + ind + "    "
+			val = val + "_it"
+		}
+		if useKey {
+			rebind += "let " + keyName + " := " + keyName + "_it\n" + ind + "    "
+			keyName = keyName + "_it"
+		}
+	}
 	coll := par(c.expr(x.X))
 	pat := val
 	if useKey {
 		coll = "(Lib.enum " + coll + ")"
-		pat = "(" + lid(src(x.Key)) + ", " + val + ")"
+		pat = "(" + keyName + ", " + val + ")"
 	}
 	b := c.clone()
 	if useKey {
@@ -852,7 +899,7 @@ func (c *trCtx) rangeStmt(x *ast.RangeStmt, rest []ast.Stmt, ind string) string 
 		b.cont = "Res.pure (Step.next " + state + ")"
 	}
 	b.fall = b.cont
-	body := b.stmts(x.Body.List, ind+"    ")
+	body := rebind + b.stmts(x.Body.List, ind+"    ")
 	after := c.stmts(rest, ind+"    ")
 	if c.f.pure {
 		return "match forRangeP (fun " + pat + " " + state + " =>" + nl + "    " + body + ") " + coll + " " + state + " with" + nl +
@@ -981,28 +1028,30 @@ func translateFunc(f trFunc, fd *ast.FuncDecl, pkgFns map[string]string) string 
 		rt = strings.Join(rts, " × ")
 	}
 	if len(stateNames) > 0 {
-		if !f.pure {
-			fail("state threading is only implemented for functions without trace effects")
-		}
 		noRes := len(rts) == 0
 		if noRes {
 			rt = strings.Join(stateTypes, " × ")
 		} else {
 			rt = rt + " × " + strings.Join(stateTypes, " × ")
 		}
+		wrap := func(s string) string { return s }
+		if !f.pure {
+			wrap = func(s string) string { return "Res.pure " + par(s) }
+			rt = "Res (" + rt + ")"
+		}
 		// every return (and the end of the body) yields the results followed by the current state
 		c.ret = func(s string) string {
 			if noRes || s == "()" {
-				return tuple(stateNames)
+				return wrap(tuple(stateNames))
 			}
 			if strings.HasPrefix(s, "(") && balancedOuter(s) && strings.Contains(s, ",") {
-				return "(" + s[1:len(s)-1] + ", " + strings.Join(stateNames, ", ") + ")"
+				return wrap("(" + s[1:len(s)-1] + ", " + strings.Join(stateNames, ", ") + ")")
 			}
-			return "(" + s + ", " + strings.Join(stateNames, ", ") + ")"
+			return wrap("(" + s + ", " + strings.Join(stateNames, ", ") + ")")
 		}
-		c.fall = tuple(stateNames)
+		c.fall = wrap(tuple(stateNames))
 		if !noRes {
-			c.fall = "(default, " + strings.Join(stateNames, ", ") + ")"
+			c.fall = wrap("(default, " + strings.Join(stateNames, ", ") + ")")
 		}
 	} else if f.pure {
 		c.ret = func(s string) string { return s }
